@@ -44,12 +44,23 @@ pub fn arch_case(rng: &mut Rng) -> String {
     let n0 = if rng.chance(1, 16) { 0 } else { 1 + rng.below(3) };
     let mut arch = Architecture::new(TensorShape::Flat { in_dim: n0 });
     let mut out = String::new();
-    let ncalls = 1 + rng.below(7);
+    // now and then a wide first layer (64 .. 66 neurons, two of them with an activation): anything the builder derives
+    // from the layer widths (capacity estimates such as 2^width) has to cope with it
+    let planned: Option<Vec<u64>> = if n0 > 0 && rng.chance(1, 24) { Some(vec![100, 3, 3, 101]) } else { None };
+    let ncalls = match &planned { Some(p) => p.len(), None => 1 + rng.below(7) };
     write!(out, "C18 arch {} {}", n0, ncalls).unwrap();
-    for _ in 0..ncalls {
+    for call in 0..ncalls {
         let cur = shape_of(&arch.current_shape);
-        let idx = if rng.chance(1, 6) { cur + rng.below(2) } else { rng.below(cur.max(1)) };
-        let (desc, res): (String, Result<(), ShapeError>) = match rng.below(11) {
+        let idx = if planned.is_none() && rng.chance(1, 6) { cur + rng.below(2) } else { rng.below(cur.max(1)) };
+        let code = match &planned { Some(p) => p[call], None => rng.below(11) as u64 };
+        let (desc, res): (String, Result<(), ShapeError>) = match code {
+            100 | 101 => {
+                let outdim = if code == 100 { 64 + rng.below(3) } else { 1 + rng.below(2) };
+                let a = rand_aff(rng, outdim, cur);
+                let mut d = String::from("linear ");
+                enc::aff(&mut d, &a);
+                (d, arch.linear(a))
+            }
             0 | 1 | 2 => {
                 let indim = if rng.chance(1, 5) { cur + 1 } else { cur };
                 // now and then a layer without outputs: the shape after it has width 0
